@@ -22,7 +22,7 @@ def one(d):
     prop = meta["property"]
     t0 = time.time()
     c = subprocess.run([os.path.join(HERE, "tools", "mutant_run.sh"), os.path.join(d, "patch.diff"), prop] + args.split(),
-                       stdout=subprocess.PIPE, stderr=subprocess.STDOUT, env=dict(os.environ, VERIF_WORKERS="8"))
+                       stdout=subprocess.PIPE, stderr=subprocess.STDOUT, env=dict(os.environ, VERIF_WORKERS=os.environ.get("RECHECK_WORKERS", "8")))
     text = c.stdout.decode(errors="replace")
     viol = [l for l in text.splitlines() if l.startswith("VIOLATION")]
     meta["check"] = {
@@ -41,7 +41,7 @@ def one(d):
 
 dirs = sorted(glob.glob(os.path.join(HERE, "seeded", "*-*")))
 bad = 0
-with concurrent.futures.ThreadPoolExecutor(max_workers=2) as ex:
+with concurrent.futures.ThreadPoolExecutor(max_workers=int(os.environ.get("RECHECK_PAR", "2"))) as ex:
     for name, verdict, line in ex.map(one, dirs):
         sig = re.search(r"signature=(\S+)", line)
         print("%-12s %-7s %s" % (name, verdict, sig.group(1) if sig else ""))
